@@ -89,7 +89,7 @@ fn rename_id(id: &str, names: &PNames) -> String {
 }
 
 pub fn c14(out: &mut dyn Write, tier: &str, rng: &mut Rng, st: &mut Stats) {
-    let n = if tier == "thorough" { 30000 } else { 1500 };
+    let n = if tier == "thorough" { 200000 } else { 1500 };
     for i in 0..n {
         // names needing escaping: ' and non-ASCII letters
         let pool = ["a", "b", "c'", "é", "x_1", "y''", "ñandú", "d"];
